@@ -1397,3 +1397,129 @@ Print Assumptions from_millis_invalid_tz.
 
 Theorem to_millis_ignores_tz fi s pic tz tz' : to_millis fi s pic tz = to_millis fi s pic tz'.
 Proof. reflexivity. Qed.
+
+(* ------------------------------------------------------------------------------------------ *)
+(** * $now() and $millis() of one evaluation denote the same instant *)
+
+(* Both are closed over the single clock reading of the evaluation (timeCallables), so every
+   $now(p, tz) is the rendering of every $millis(). *)
+Theorem now_millis_same_instant fi clock_ms pic tz :
+  eval_now fi clock_ms pic tz = from_millis fi (eval_millis clock_ms) pic tz.
+Proof. reflexivity. Qed.
+
+
+(* ------------------------------------------------------------------------------------------ *)
+(** * Each picture component shows the corresponding field of the instant *)
+
+(* the time value FromMillis hands to FormatTime: instant ms seen at offset off *)
+Definition instant_at (ms off : Z) (name : string) : gotime := time_in (ms_to_time ms) off name.
+
+(** The clock and calendar fields of that value are the specification's fields of the instant
+    ms at offset off (floor arithmetic, also for negative ms). *)
+Theorem fields_of_instant : forall ms off name,
+  let t := instant_at ms off name in
+  t_days t = local_day ms off /\
+  (t_year t, t_month t, t_day t) = civil_of_days (local_day ms off) /\
+  t_weekday t = weekday_of_days (local_day ms off) /\
+  t_yearday t = yearday (local_day ms off) /\
+  t_isoweek t = iso_week (local_day ms off) /\
+  t_hour t = hour_of ms off /\ t_minute t = minute_of ms off /\ t_second t = second_of ms off /\
+  t_nanosecond t = millisecond_of ms * 1000000.
+Proof.
+  intros ms off name t.
+  destruct (ms_to_time_fields ms) as (Fs & Fn & _).
+  assert (t_local_sec t = local_seconds ms off) as HL
+    by (unfold t_local_sec, local_seconds; subst t; cbn [instant_at time_in unix_sec offset]; now rewrite Fs).
+  assert (t_days t = local_day ms off) as HD by (unfold t_days, local_day; now rewrite HL).
+  unfold t_year, t_month, t_day, t_weekday, t_yearday, t_isoweek, t_hour, t_minute, t_second, t_sod,
+    t_nanosecond, hour_of, minute_of, second_of, millisecond_of.
+  rewrite HD, HL.
+  destruct (civil_of_days (local_day ms off)) as [[y m] d].
+  repeat split; try reflexivity.
+  - generalize (local_seconds ms off). intros L. lia.
+  - generalize (local_seconds ms off). intros L. lia.
+  - subst t. cbn [instant_at time_in nsec]. exact Fn.
+Qed.
+Print Assumptions fields_of_instant.
+Example fields_of_instant_ex :
+  let t := instant_at (-1) (-27000) "-0730" in   (* 1 ms before the epoch, at -07:30 *)
+  (t_year t, t_month t, t_day t, t_hour t, t_minute t, t_second t, t_nanosecond t)
+  = (1969, 12, 31, 16, 29, 59, 999000000).
+Proof. vm_compute. reflexivity. Qed.
+
+Lemma decimal_not_name s : is_decimal_format s = true -> is_name_format s = false.
+Proof.
+  intros H. unfold is_name_format.
+  destruct (seqb s "N") eqn:E1; [apply seqb_eq in E1; subst; discriminate|].
+  destruct (seqb s "n") eqn:E2; [apply seqb_eq in E2; subst; discriminate|].
+  destruct (seqb s "Nn") eqn:E3; [apply seqb_eq in E3; subst; discriminate|]. reflexivity.
+Qed.
+
+(* the integer each numeric component hands to formatInteger *)
+Definition component_value (t : gotime) (c : Z) : Z :=
+  if c =? cM then t_month t else if c =? cD then t_day t else if c =? cd then t_yearday t
+  else if c =? cF then t_weekday t + 1 else if c =? cW then snd (t_isoweek t)
+  else if c =? cH then t_hour t else if c =? ch then hour12_of (t_hour t)
+  else if c =? cm then t_minute t else if c =? cs then t_second t else 0.
+
+(** With a decimal presentation modifier, [M] [D] [d] [F] [W] [H] [h] [m] [s] print (through
+    FormatNumber, plus the ordinal suffix for the 'o' modifier) the month, day, day of year,
+    weekday number (Sunday = 1), ISO week, hour, 12-hour clock value, minute, second.  The
+    width modifiers are NOT consulted for these components (formatIntegerComponent ignores
+    minWidth / maxWidth). *)
+Theorem component_decimal fi t c mk :
+  In c [cM; cD; cd; cF; cW; cH; ch; cm; cs] -> is_decimal_format (mk_format mk) = true ->
+  expand_date_component fi t c mk = format_integer_component fi (component_value t c) mk.
+Proof.
+  intros Hc Hd. pose proof (decimal_not_name _ Hd) as Hn.
+  cbn [In] in Hc.
+  repeat (destruct Hc as [<- | Hc];
+          [unfold expand_date_component, component_value;
+           repeat match goal with |- context [?a =? ?b] =>
+             let v := eval vm_compute in (a =? b) in
+             match v with true => change (a =? b) with true | false => change (a =? b) with false end
+           end; cbv iota;
+           unfold format_month, format_decimal_field, format_day_of_week, format_hour;
+           rewrite ?Hn, ?Hd; reflexivity|]).
+  destruct Hc.
+Qed.
+Print Assumptions component_decimal.
+
+(** [Y]: the year, truncated (Go's %) to the last maxWidth digits, or — without a maximum
+    width — to as many digits as the format has digit signs when there are at least two. *)
+Theorem component_year fi t mk : is_decimal_format (mk_format mk) = true ->
+  let size := if mk_maxw mk <=? 0
+              then (if 2 <=? count_digits_hash (mk_format mk) then count_digits_hash (mk_format mk)
+                    else mk_maxw mk)
+              else mk_maxw mk in
+  expand_date_component fi t cY mk =
+  if 0 <? size then
+    if pow10 size =? 0 then LPanic "integer divide by zero"
+    else format_integer_component fi (Z.rem (t_year t) (pow10 size)) mk
+  else format_integer_component fi (t_year t) mk.
+Proof.
+  intros Hd. unfold expand_date_component. change (cY =? cY) with true. cbv iota.
+  unfold format_year. rewrite Hd. reflexivity.
+Qed.
+
+(** The panic: a maximum width of 64 or more makes pow10 wrap to 0 and [Y] divides by it. *)
+Theorem year_width_panics fi t mk : is_decimal_format (mk_format mk) = true -> 64 <= mk_maxw mk ->
+  expand_date_component fi t cY mk = LPanic "integer divide by zero".
+Proof.
+  intros Hd Hw. rewrite component_year by exact Hd. cbv zeta.
+  destruct (mk_maxw mk <=? 0) eqn:E; [lia|].
+  destruct (0 <? mk_maxw mk) eqn:E2; [|lia].
+  unfold pow10. rewrite E. destruct (64 <=? mk_maxw mk) eqn:E3; [reflexivity|lia].
+Qed.
+Example year_width_panics_ex fi :
+  from_millis fi 0 (Some "[Y,*-64]"%string) None = LPanic "integer divide by zero".
+Proof. vm_compute. reflexivity. Qed.
+
+(* English names (language.go): the first name of every month / day is the full English name *)
+Example english_names :
+  map (hd ""%string) (tl en_months) =
+    ["January"; "February"; "March"; "April"; "May"; "June"; "July"; "August"; "September";
+     "October"; "November"; "December"]%string /\
+  map (hd ""%string) en_days =
+    ["Sunday"; "Monday"; "Tuesday"; "Wednesday"; "Thursday"; "Friday"; "Saturday"]%string.
+Proof. split; reflexivity. Qed.
